@@ -77,6 +77,8 @@ Fails(e) == CASE e.op = "gate" -> FailsGate(e)
               [] e.op = "conc_rt" -> FailsRT(e)
               [] e.op = "conc_time" -> FailsTime(e)
               [] e.op = "conc_reg" -> Chk(e.out = "ok", "a registration that had returned was not in effect for a codec / schema built afterwards by the same goroutine (lost update?): " \o e.out)
+              [] e.op = "conc_err" -> Chk(e.bytes = e.s, "a failing decode through the shared codec reported another input's error (state on the codec's error path?)")
+              [] e.op = "conc_gen" -> Chk(e.bytes = e.s, "schema generation gave a different result while other goroutines were generating schemas")
               [] e.op = "conc_str" -> Chk(e.bytes = e.s, "a string decoded into this goroutine's own bank is not the string that was encoded (banks shared between goroutines?)")
               [] e.op = "conc_time_batch" -> Chk(\A i \in 1..Len(e.items) : e.items[i].out = "ok" /\ SameCivil(ParseRFC3339(e.items[i].s), e.items[i].t),
                                                  "a concurrently parsed timestamp differs from its sequential value (shared zone cache)")
